@@ -387,3 +387,6 @@ def check(ctx):
     ctx.run('C02.R6', 'hand-out: end of stream => Complete + done(); single-shot Complete before value; Complete/Dropped arms never return', r6_handout)
     ctx.run('C02.R6b', 'the value handed out is the result taken by next() in this poll, validated by check_result', r6b_value_flow)
     ctx.run('C02.R7', 'LIFE-4: Running->Done and the wake only on the final completion / multishot progress', life.life4)
+    from . import c05
+    ctx.run('C02.R9', 'every completion the kernel published is handed to Completion::process exactly once, also when the queue is exactly full (=C05.R3)', c05.r3_once_per_slot)
+    ctx.run('C02.R10', 'the head published to the kernel is the position behind the last processed completion (=C05.R2)', c05.r2_publish_last)
